@@ -172,6 +172,8 @@ func verifSymbolicReady(self uint64, next *uint64, k int) verifReadySpec {
 		}
 		spec.rd.Messages = append(spec.rd.Messages, raftpb.Message{Type: mt, To: to, From: self, Term: 3})
 	}
+	// raft sets MustSync when the term/vote changed or there are entries to append
+	spec.rd.MustSync = len(spec.rd.Entries) > 0 || !etcdRaft.IsEmptyHardState(spec.rd.HardState)
 	return spec
 }
 
@@ -286,17 +288,26 @@ func VerifC03() {
 				// C03 (a)/(b): nothing is applied (and hence acknowledged) before this Ready's
 				// hard state, entries and snapshot are durable: a crash just before this event
 				// must find them saved
-				verifrt.Assert(savePos >= 0 && savePos < pos, "persisted-before-applied")
+				if !etcdRaft.IsEmptyHardState(spec.rd.HardState) || len(spec.rd.Entries) > 0 || !etcdRaft.IsEmptySnap(spec.rd.Snapshot) {
+					verifrt.Assert(savePos >= 0 && savePos < pos, "persisted-before-applied")
+				}
 			case "send":
 				// C05 (1): a non-leader sends nothing of this Ready before its Save
-				if !leaderAt[k] {
+				if !leaderAt[k] && (!etcdRaft.IsEmptyHardState(spec.rd.HardState) || len(spec.rd.Entries) > 0 || !etcdRaft.IsEmptySnap(spec.rd.Snapshot)) {
 					verifrt.Assert(savePos >= 0 && savePos < pos, "follower-messages-leave-after-durable-write")
 				}
 			}
 		}
-		verifrt.Assert(nSave == 1, "one-save-per-ready")
+		// something to persist => exactly one save; an empty Ready may skip it
+		mustPersist := !etcdRaft.IsEmptyHardState(spec.rd.HardState) || len(spec.rd.Entries) > 0 || !etcdRaft.IsEmptySnap(spec.rd.Snapshot)
+		if mustPersist {
+			verifrt.Assert(nSave == 1, "one-save-per-ready-with-state")
+		} else {
+			verifrt.Assert(nSave <= 1, "at-most-one-save-per-ready")
+		}
 		verifrt.Assert(nAdv == 1, "advance-once-per-ready")
 		verifrt.Assert(advancePos > lastApplyPos && advancePos > savePos, "advance-last")
+		_ = mustPersist
 		// (d) snapshot first, then every committed entry once, in order
 		want := 0
 		if !etcdRaft.IsEmptySnap(spec.rd.Snapshot) {
@@ -377,7 +388,10 @@ func VerifC03() {
 	for pos, e := range verifEvents {
 		if e.kind == "createsnap" {
 			verifrt.Reach("local-snapshot-taken")
-			verifrt.Assert(e.idx == lastApplied, "local-snapshot-labelled-with-last-applied-index")
+			// the label must not run ahead of what the snapshot data contains (an entry
+			// above the label but inside the data is re-applied harmlessly after a restart;
+			// an entry below the label that is missing from the data would be lost)
+			verifrt.Assert(e.idx <= lastApplied, "local-snapshot-label-not-ahead-of-applied-index")
 			verifrt.Assert(pos > 0 && verifEvents[pos-1].kind == "snapshotfn", "snapshot-data-produced-just-before-labelling")
 		}
 	}
